@@ -43,6 +43,29 @@ def handover_identity(sc, obs):
                         return None
         pre_sets, pre_store = so["sets"], so["post"]
     return None
+ID_NS_PREV = "C07 ObjectSet created with an ObjectSet of another namespace in spec.previous (or none created because of one)"
+ID_NS_REQ = "C08 deployment pass pauses / archives / deletes / creates an ObjectSet outside the deployment's namespace"
+
+
+def namespace_violations(sc, obs):
+    """Observational: requests of deployment passes and the foreign ObjectSets themselves. Returns a set of identities."""
+    out = set()
+    if not sc.get("foreign"):
+        return out
+    fnames = {f["name"] for f in sc["foreign"]}
+    show = lambda fs: [(f["name"], f["life"], f["deleting"], f["pbp"]) for f in fs]
+    before = show(sorted(sc["foreign"], key=lambda f: f["name"]))
+    own = {s["name"] for s in sc["sets"]}
+    for st, so in zip(sc["steps"], obs["steps"]):
+        for e in so["events"]:
+            if e.get("otherns"):
+                out.add(ID_NS_REQ)
+            if e["kind"] == "create" and any(p in fnames and p not in own for p in e.get("prev") or []):
+                out.add(ID_NS_PREV)
+        if show(so.get("foreign", [])) != before:
+            out.add(ID_NS_REQ)
+        own = {s["name"] for s in so["sets"]}
+    return out
 
 
 def note_shapes(run):
@@ -75,5 +98,6 @@ def pass_class(st, so):
 
 def slim_obs(obs):
     return [{"res": s["res"], "events": s["events"], "dep": s["dep"],
-             "sets": [{k: x[k] for k in ("name", "life", "revision", "prev", "hash", "pbp", "conds", "ctrlof", "deleting")} for x in s["sets"]]}
+             "sets": [{k: x[k] for k in ("name", "life", "revision", "prev", "hash", "pbp", "conds", "ctrlof", "deleting")} for x in s["sets"]],
+             "foreign": [(x["name"], x["life"], x["deleting"], x["pbp"]) for x in s.get("foreign", [])]}
             for s in obs["steps"]]
